@@ -19,5 +19,13 @@ cp /repo/Cargo.lock harness/Cargo.lock 2>/dev/null || true
     low=$(basename "$p" .json | tr 'A-Z' 'a-z')
     (cd harness && cargo build --release --quiet --bin $low) || echo "setup: harness build for $low failed"
   done
+for p in props/C*.json; do
+  hd=$(python3 -c "import json; print(json.load(open('$p')).get('harness_dir',''))")
+  if [ -n "$hd" ] && [ -d "$hd" ]; then
+    low=$(basename "$p" .json | tr 'A-Z' 'a-z')
+    cp /repo/Cargo.lock "$hd/Cargo.lock" 2>/dev/null || true
+    (cd "$hd" && cargo build --release --quiet --bin $low) || echo "setup: harness build for $low ($hd) failed"
+  fi
+done
 echo "setup done"
 exit 0
